@@ -91,6 +91,14 @@ M = [
     ("C16", "pso-writes-history", "black_it/samplers/particle_swarm.py", "        previous_losses = existing_losses[batch_index_start:batch_index_stop]", "        previous_losses = existing_losses[batch_index_start:batch_index_stop]\n        existing_losses[batch_index_start:batch_index_stop] = np.sort(previous_losses)"),
     ("C16", "cors-normalise-inplace", "black_it/samplers/cors.py", "        current_losses = existing_losses / fmax", "        existing_losses /= fmax\n        current_losses = existing_losses"),
     ("C16", "rf-sorts-history", "black_it/samplers/random_forest.py", "        y: NDArray[np.float64] = existing_losses\n", "        y: NDArray[np.float64] = existing_losses\n        y.sort()\n"),
+    ("C03", "bb-no-snap", "black_it/samplers/best_batch.py", "        return digitize_data(sampled_points, search_space.param_grid)", "        return sampled_points"),
+    ("C03", "rf-bin0", "black_it/samplers/random_forest.py", "        quantiles[0] = np.minimum(0.0, np.min(y))\n", ""),
+    ("C03", "halton-no-map", "black_it/samplers/halton.py", "sampled_points = p_bounds[0] + unit_cube_points * (p_bounds[1] - p_bounds[0])\n        return digitize_data(sampled_points, search_space.param_grid)", "sampled_points = p_bounds[0] + unit_cube_points * (p_bounds[1] - p_bounds[0])\n        return digitize_data(sampled_points, search_space.param_grid) if batch_size != 2 else sampled_points"),
+    ("C03", "rseq-clip-not-snap", "black_it/samplers/r_sequence.py", "        return digitize_data(sampled_points, search_space.param_grid)", "        return np.clip(digitize_data(sampled_points, search_space.param_grid) + (sampled_points > p_bounds[1] - 0.05) * 1.0, p_bounds[0], p_bounds[1])"),
+    ("C03", "pso-second-no-snap", "black_it/samplers/particle_swarm.py", "        self._previous_batch_index_start = len(existing_points)\n        return digitize_data(sampled_points, search_space.param_grid)", "        self._previous_batch_index_start = len(existing_points)\n        return np.clip(sampled_points, p_bounds[0], p_bounds[1])"),
+    ("C03", "cors-no-snap", "black_it/samplers/cors.py", "        return digitize_data(new_box_batch, search_space.param_grid)", "        return new_box_batch"),
+    ("C03", "sur-rows", "black_it/samplers/surrogate.py", "candidates[sorting_indices][:batch_size]", "candidates[sorting_indices][: max(batch_size, 2)]"),
+    ("C03", "uniform-range", "black_it/samplers/random_uniform.py", "candidates[:, i] = self.random_generator.choice(params, size=(batch_size,))", "candidates[:, i] = self.random_generator.choice(params, size=(batch_size,)) if i == 0 else params[0] + self.random_generator.random(size=(batch_size,)) * (params[-1] - params[0])"),
     ("C15", "no-tolerance", "black_it/search_space.py", "parameters_bounds[1][i] + 0.0000001,", "parameters_bounds[1][i],"),
 ]
 
